@@ -4,7 +4,68 @@ use std::collections::BTreeMap;
 
 use common::Rng;
 
-use crate::peers::{Cmd, Ev, Key, LaneKind, Pace, St, FAST};
+use crate::peers::{BadEnv, Cmd, Ev, Key, LaneKind, Pace, St, FAST};
+
+/// What the map runtime is told to do with an event whose body is not a map message
+/// (`swimos_runtime::downlink::failure`). The value runtime has no such choice.
+#[derive(Clone, Copy, Debug, PartialEq, Eq, Hash)]
+pub enum Strategy {
+    /// `AlwaysAbortStrategy` (what every part other than `badframe-*` runs with).
+    Abort,
+    /// `ReportStrategy::new(AlwaysAbortStrategy)`.
+    ReportAbort,
+    /// `ReportStrategy::new(AlwaysAbortStrategy).boxed()` (what the server and the client build when
+    /// `abort_on_bad_frames` is set).
+    BoxedReportAbort,
+    /// `AlwaysIgnoreStrategy`.
+    Ignore,
+    /// `ReportStrategy::new(AlwaysIgnoreStrategy).boxed()` (what they build when it is not set).
+    BoxedReportIgnore,
+}
+
+pub const STRATEGIES: [Strategy; 5] = [Strategy::Abort, Strategy::ReportAbort, Strategy::BoxedReportAbort, Strategy::Ignore, Strategy::BoxedReportIgnore];
+
+impl Strategy {
+    pub fn name(self) -> &'static str {
+        match self {
+            Strategy::Abort => "always-abort",
+            Strategy::ReportAbort => "report(always-abort)",
+            Strategy::BoxedReportAbort => "boxed-report(always-abort)",
+            Strategy::Ignore => "always-ignore",
+            Strategy::BoxedReportIgnore => "boxed-report(always-ignore)",
+        }
+    }
+
+    /// The response the strategy gives to every bad frame.
+    pub fn aborts(self) -> bool {
+        matches!(self, Strategy::Abort | Strategy::ReportAbort | Strategy::BoxedReportAbort)
+    }
+
+    pub fn response(self) -> &'static str {
+        if self.aborts() {
+            "abort"
+        } else {
+            "ignore"
+        }
+    }
+}
+
+/// Event bodies that are not map messages (`@update(key:K) V`, `@remove(key:K)`, `@clear`, `@take(n)`,
+/// `@drop(n)`), whatever one thinks of optional white space.
+pub const BAD_MAP_BODIES: [&[u8]; 12] = [
+    b"",
+    b"42",
+    b"@nonsense",
+    b"@update",
+    b"@remove",
+    b"@take",
+    b"@update(key:",
+    b"@update(wrong:1) 5",
+    b"@update(key:1,key:2) 3",
+    b"@drop(many)",
+    b"{",
+    b"@update(key:\xff\xfe) 1",
+];
 
 #[derive(Clone, Debug)]
 pub struct ConsCfg {
@@ -74,6 +135,13 @@ pub struct Config {
     /// Parts `inactivity-*` (C17): consumers come and go around the `empty_timeout`, no lane-side
     /// faults, the conversation ends with `EndKind::FinalIdle`.
     pub inactivity: bool,
+    /// Map lanes: the runtime's `BadFrameStrategy`.
+    pub strategy: Strategy,
+    /// The script may make the lane emit frames that are not what a lane emits (`badframe-*` parts and
+    /// the C17 part `inactivity-extras`): the oracles then expect what is said in `oracle.rs`.
+    pub badframes: bool,
+    /// Random conversations: bursts of padded events with nothing in between (`feed-failure-*` parts).
+    pub bursts: bool,
 }
 
 pub const LONG_TIMEOUT_MS: u64 = 5000;
@@ -83,6 +151,12 @@ pub enum Step {
     Attach(usize),
     Cmd(usize, Cmd),
     LaneApply(Ev),
+    /// The same with that many bytes of trailing white space in the event's body.
+    LaneApplyPadded(Ev, usize),
+    /// The lane emits an `event` envelope with this body (not an event of its kind).
+    LaneBadEvent(Vec<u8>),
+    /// The lane emits bytes that are not an envelope (and nothing afterwards).
+    LaneBadEnvelope(BadEnv),
     Stall(usize),
     Unstall(usize),
     SetPace(usize, Pace),
@@ -222,6 +296,9 @@ impl<'a> Gen<'a> {
             timeout_ms: LONG_TIMEOUT_MS,
             faults: false,
             inactivity: false,
+            strategy: Strategy::Abort,
+            badframes: false,
+            bursts: false,
         }
     }
 
@@ -241,6 +318,52 @@ impl<'a> Gen<'a> {
             cfg.consumers.push(ConsCfg { sync: rng.bool(), keep: rng.bool(), ..again });
         }
         cfg
+    }
+
+    /// Configuration of the `badframe-*` parts: as `config`, with one of the five strategies (map) and
+    /// a script that makes the lane emit one frame that is not what a lane emits (two or three event
+    /// bodies when the strategy ignores them).
+    pub fn badframe_config(&mut self, kind: LaneKind) -> Config {
+        let mut cfg = self.config(kind);
+        cfg.badframes = true;
+        cfg.strategy = *self.rng.pick(&STRATEGIES);
+        cfg
+    }
+
+    /// Configuration of the `feed-failure-*` parts: three or four consumers, a socket that holds a
+    /// whole burst, bursts of padded events in the script.
+    pub fn burst_config(&mut self, kind: LaneKind) -> Config {
+        let mut cfg = self.config(kind);
+        let rng = &mut *self.rng;
+        cfg.bursts = true;
+        cfg.cap_sock_in = 1 << 16;
+        let n = rng.range(3, 5) as usize;
+        while cfg.consumers.len() < n {
+            let again = cfg.consumers[rng.usize_below(cfg.consumers.len())].clone();
+            cfg.consumers.push(ConsCfg { sync: rng.bool(), keep: rng.bool(), ..again });
+        }
+        // (a consumer that takes a byte at a time makes a burst of 15 KiB very long)
+        for c in cfg.consumers.iter_mut() {
+            c.cap_note = c.cap_note.max(64);
+            c.pace.chunk = c.pace.chunk.max(1024);
+            c.pace.yields = c.pace.yields.min(1);
+        }
+        cfg.lane_pace.chunk = cfg.lane_pace.chunk.max(64);
+        cfg
+    }
+
+    fn bad_frame_step(&mut self, cfg: &Config, envelope_allowed: bool) -> Step {
+        let envelope = cfg.kind == LaneKind::Value || (envelope_allowed && self.rng.chance(1, 4));
+        if envelope {
+            Step::LaneBadEnvelope(match self.rng.below(5) {
+                0 => BadEnv::RequestTag,
+                1 => BadEnv::LinkedWithBody,
+                2 => BadEnv::NonUtf8Node,
+                _ => BadEnv::Truncated(self.rng.range(1, 999)),
+            })
+        } else {
+            Step::LaneBadEvent(self.rng.pick(&BAD_MAP_BODIES).to_vec())
+        }
     }
 
     fn advance(&mut self, cfg: &Config) -> Step {
@@ -561,6 +684,17 @@ impl<'a> Gen<'a> {
         // three conversations of eight, not before the first third.
         let mut lane_fault: Option<(usize, u64)> =
             if cfg.faults && self.rng.chance(3, 8) { Some((self.rng.range(len as u64 / 3, len as u64) as usize, self.rng.below(8))) } else { None };
+        // `badframe-*` parts: where the lane emits its bad frames (one; up to three event bodies when
+        // the strategy ignores them - the first may then not be an envelope fault, which ends the link).
+        let mut bad_at: Vec<usize> = vec![];
+        if cfg.badframes {
+            let k = if cfg.kind == LaneKind::Map && !cfg.strategy.aborts() { self.rng.range(1, 4) } else { 1 };
+            for _ in 0..k {
+                bad_at.push(self.rng.range(len as u64 / 5, len as u64) as usize);
+            }
+            bad_at.sort();
+            bad_at.reverse();
+        }
         while i < len {
             while ai < attach_at.len() && attach_at[ai].0 <= i {
                 let c = attach_at[ai].1;
@@ -632,6 +766,36 @@ impl<'a> Gen<'a> {
                 }
                 attached.push(y);
                 ai += 1;
+                continue;
+            }
+            if bad_at.last().map_or(false, |at| i >= *at) && !attached.is_empty() {
+                bad_at.pop();
+                // (an envelope fault ends everything: only as the last one)
+                let step = self.bad_frame_step(cfg, bad_at.is_empty());
+                steps.push(step);
+                if self.rng.bool() {
+                    steps.push(self.settle_or_yield());
+                }
+                i += 1;
+                continue;
+            }
+            if cfg.bursts && attached.len() >= 2 && self.rng.chance(1, 14) {
+                // a consumer stops listening (now and then), then a burst of padded events with
+                // nothing in between: the read task finds them back to back and flushes nobody
+                if self.rng.chance(2, 3) {
+                    let x = *self.rng.pick(&attached);
+                    steps.push(if self.rng.chance(2, 3) { Step::DropReader(x) } else { Step::DropBoth(x) });
+                    if self.rng.chance(1, 4) {
+                        steps.push(Step::Yield(self.rng.range(1, 4) as u32));
+                    }
+                }
+                let pad = *self.rng.pick(&[1500usize, 2800, 3000, 3000, 4200, 4200, 9000]);
+                for _ in 0..self.rng.range(2, 7) {
+                    let ev = self.lane_change(cfg);
+                    steps.push(Step::LaneApplyPadded(ev, pad));
+                }
+                steps.push(self.settle_or_yield());
+                i += 6;
                 continue;
             }
             if cfg.faults {
@@ -771,6 +935,9 @@ pub fn grid_case(idx: u64) -> (Config, Vec<Step>, JoinPhase) {
         timeout_ms: LONG_TIMEOUT_MS,
         faults: false,
         inactivity: false,
+        strategy: Strategy::Abort,
+        badframes: false,
+        bursts: false,
     };
     let mut lane_n = 1u64;
     let mut change = |steps: &mut Vec<Step>| {
@@ -921,6 +1088,9 @@ pub fn directed_case(idx: u64) -> (Config, Vec<Step>, &'static str) {
         timeout_ms: LONG_TIMEOUT_MS,
         faults: false,
         inactivity: false,
+        strategy: Strategy::Abort,
+        badframes: false,
+        bursts: false,
     };
     (cfg, s, DIRECTED_SCENARIOS[scenario])
 }
@@ -1104,6 +1274,9 @@ pub fn fault_case(idx: u64) -> (Config, Vec<Step>, &'static str) {
         timeout_ms: t,
         faults: true,
         inactivity: false,
+        strategy: Strategy::Abort,
+        badframes: false,
+        bursts: false,
     };
     (cfg, s, FAULT_SCENARIOS[scenario])
 }
@@ -1291,6 +1464,9 @@ pub fn inactivity_case(idx: u64) -> (Config, Vec<Step>, &'static str) {
         timeout_ms: t,
         faults: true,
         inactivity: true,
+        strategy: Strategy::Abort,
+        badframes: false,
+        bursts: false,
     };
     (cfg, s, INACTIVITY_SCENARIOS[scenario])
 }
@@ -1320,4 +1496,438 @@ pub fn inactivity_witness_case(idx: u64) -> (Config, Vec<Step>) {
     cfg.inactivity = true;
     cfg.end = EndKind::FinalIdle;
     (cfg, s)
+}
+
+// ------------------------------------------------------------------------------------------------
+// Directed bad-frame scenarios (C07): the lane emits one frame that is not what a lane emits - an
+// `event` whose body is not a map message (map lanes: decided by the runtime's `BadFrameStrategy`),
+// or bytes that are not an envelope (both lane kinds) - at five points of a conversation of two
+// consumers, under each strategy.
+
+pub const BADFRAME_POSITIONS: [&str; 5] =
+    ["established", "behind-the-link-answer-while-a-consumer-joins", "nobody-attached", "before-a-late-joiner", "back-to-back-with-events-consumer-stalled"];
+/// 12 bodies + 4 envelope faults on the map lane under 5 strategies, 4 envelope faults on the value lane.
+pub const BADFRAME_FAULTS_MAP: u64 = 16;
+pub const BADFRAME_FAULTS_VALUE: u64 = 4;
+const BADFRAME_OPTIONS: u64 = 8;
+pub const BADFRAME_MAP_CASES: u64 = BADFRAME_FAULTS_MAP * 5 * 5 * BADFRAME_OPTIONS;
+pub const BADFRAME_CASES: u64 = BADFRAME_MAP_CASES + BADFRAME_FAULTS_VALUE * 5 * BADFRAME_OPTIONS;
+
+pub fn badframe_case(idx: u64) -> (Config, Vec<Step>, &'static str) {
+    let (kind, mut i) = if idx < BADFRAME_MAP_CASES { (LaneKind::Map, idx) } else { (LaneKind::Value, idx - BADFRAME_MAP_CASES) };
+    let mut take = |n: u64| {
+        let r = i % n;
+        i /= n;
+        r
+    };
+    let pos = take(5) as usize;
+    let fault = take(if kind == LaneKind::Map { BADFRAME_FAULTS_MAP } else { BADFRAME_FAULTS_VALUE });
+    let strategy = if kind == LaneKind::Map { STRATEGIES[take(5) as usize] } else { Strategy::Abort };
+    let o = take(BADFRAME_OPTIONS);
+    let (oa, ob) = (o & 3, ((o >> 2) & 1) | ((o & 1) << 1));
+    let envs = [BadEnv::RequestTag, BadEnv::LinkedWithBody, BadEnv::NonUtf8Node, BadEnv::Truncated(100 + 97 * o)];
+    let envelope = kind == LaneKind::Value || fault >= 12;
+    let bad = || {
+        if kind == LaneKind::Value {
+            Step::LaneBadEnvelope(envs[fault as usize])
+        } else if fault >= 12 {
+            Step::LaneBadEnvelope(envs[fault as usize - 12])
+        } else {
+            Step::LaneBadEvent(BAD_MAP_BODIES[fault as usize].to_vec())
+        }
+    };
+    let init = match kind {
+        LaneKind::Value => St::V(0),
+        LaneKind::Map => St::M((0..2).map(|j| (lane_key(j), 1000 + j)).collect()),
+    };
+    let mut lane_n = 1u64;
+    let mut change = |steps: &mut Vec<Step>| {
+        let ev = match kind {
+            LaneKind::Value => Ev::Set(lane_n),
+            LaneKind::Map => Ev::Upd(lane_key(2 + lane_n % 3), lane_n),
+        };
+        lane_n += 1;
+        steps.push(Step::LaneApply(ev));
+    };
+    let cmd = |c: usize, n: u64| {
+        let v = ((c as u64 + 1) << 32) | n;
+        match kind {
+            LaneKind::Value => Cmd::Set(v),
+            LaneKind::Map => Cmd::Upd(consumer_key(c, n % 2), v),
+        }
+    };
+    let cons = |o: u64| ConsCfg { sync: o & 1 == 1, keep: o & 2 == 2, cap_note: 4096, cap_cmd: 4096, pace: FAST };
+    let mut s = vec![];
+    match pos {
+        0 => {
+            s.push(Step::Attach(0));
+            s.push(Step::Attach(1));
+            s.push(Step::Settle);
+            change(&mut s);
+            s.push(Step::Settle);
+            s.push(bad());
+            s.push(Step::Settle);
+            change(&mut s);
+            change(&mut s);
+            s.push(Step::Settle);
+            s.push(Step::Cmd(0, cmd(0, 0)));
+            s.push(Step::Settle);
+        }
+        1 => {
+            // the lane may say `linked` and nothing else; the bad frame waits behind the answers owed
+            s.push(Step::LaneBudget(Some(1)));
+            s.push(Step::Attach(0));
+            s.push(Step::Settle);
+            s.push(bad());
+            s.push(Step::Attach(1));
+            s.push(Step::Settle);
+            s.push(Step::LaneBudget(None));
+            s.push(Step::Settle);
+            change(&mut s);
+            change(&mut s);
+            s.push(Step::Settle);
+        }
+        2 => {
+            s.push(Step::Attach(0));
+            s.push(Step::Settle);
+            change(&mut s);
+            s.push(Step::Settle);
+            s.push(Step::DropBoth(0));
+            s.push(Step::Settle);
+            change(&mut s);
+            s.push(Step::Settle);
+            change(&mut s);
+            s.push(Step::Settle);
+            s.push(bad());
+            s.push(Step::Settle);
+            s.push(Step::Attach(1));
+            s.push(Step::Settle);
+            change(&mut s);
+            s.push(Step::Settle);
+        }
+        3 => {
+            s.push(Step::Attach(0));
+            s.push(Step::Settle);
+            change(&mut s);
+            s.push(bad());
+            s.push(Step::Settle);
+            s.push(Step::Attach(1));
+            s.push(Step::Settle);
+            change(&mut s);
+            s.push(Step::Settle);
+            s.push(Step::Cmd(1, cmd(1, 0)));
+            s.push(Step::Settle);
+            change(&mut s);
+            s.push(Step::Settle);
+        }
+        _ => {
+            s.push(Step::Attach(0));
+            s.push(Step::Attach(1));
+            s.push(Step::Settle);
+            s.push(Step::Stall(0));
+            change(&mut s);
+            s.push(bad());
+            change(&mut s);
+            if !envelope {
+                s.push(bad());
+            }
+            change(&mut s);
+            s.push(Step::Settle);
+            s.push(Step::Unstall(0));
+            s.push(Step::Settle);
+        }
+    }
+    // (after an envelope fault the lane cannot say `unlinked` any more)
+    let end = match (envelope, pos % 2) {
+        (false, 0) => EndKind::LaneUnlinked,
+        (true, 0) => EndKind::StopTrigger,
+        _ => EndKind::Nothing,
+    };
+    let cfg = Config {
+        kind,
+        consumers: vec![cons(oa), cons(ob)],
+        cap_sock_out: 4096,
+        cap_sock_in: 4096,
+        lane_pace: FAST,
+        att_queue: 8,
+        jitter: 0,
+        init,
+        end,
+        clearer: None,
+        lane_bulk: false,
+        timeout_ms: LONG_TIMEOUT_MS,
+        faults: false,
+        inactivity: false,
+        strategy,
+        badframes: true,
+        bursts: false,
+    };
+    (cfg, s, BADFRAME_POSITIONS[pos])
+}
+
+// ------------------------------------------------------------------------------------------------
+// Directed feed-failure scenarios (C07): three or four consumers are established; one of them (the
+// first, a middle one or the last to have attached) stops listening without a word, and the lane
+// sends a burst of events with 3000 bytes of trailing white space each, which the read task finds
+// back to back: it buffers them for every consumer without flushing anybody, until a consumer's
+// buffer has reached 8 KiB and the next event has to be flushed first - for the one that has gone
+// that fails *while the event is fed* (`send_current`), and the consumer is removed by its index in
+// the list. Everybody else must get every event of the burst and everything after it, in order.
+
+pub const FEED_FAILURE_VARIANTS: [&str; 4] =
+    ["leaves-then-burst", "leaves-in-the-middle-of-a-burst", "two-leave-one-burst-each", "leaves-while-the-read-task-waits-for-a-stalled-consumer"];
+pub const FEED_FAILURE_CASES: u64 = 2 * 2 * 3 * 4 * 4;
+pub const PAD: usize = 3000;
+
+pub fn feed_failure_case(idx: u64) -> (Config, Vec<Step>, &'static str) {
+    let mut i = idx;
+    let mut take = |n: u64| {
+        let r = i % n;
+        i /= n;
+        r
+    };
+    let kind = if take(2) == 0 { LaneKind::Value } else { LaneKind::Map };
+    let n = 3 + take(2) as usize;
+    let victim = [0, 1, n - 1][take(3) as usize];
+    let opts = take(4);
+    let var = take(4) as usize;
+    let init = match kind {
+        LaneKind::Value => St::V(0),
+        LaneKind::Map => St::M((0..2).map(|j| (lane_key(j), 1000 + j)).collect()),
+    };
+    let mut lane_n = 1u64;
+    let mut ev = || {
+        let e = match kind {
+            LaneKind::Value => Ev::Set(lane_n),
+            LaneKind::Map => Ev::Upd(lane_key(2 + lane_n % 3), lane_n),
+        };
+        lane_n += 1;
+        e
+    };
+    let sync = |c: usize| match opts {
+        0 => false,
+        1 => true,
+        2 => c % 2 == 0,
+        _ => c % 2 == 1,
+    };
+    // (a notification channel smaller than one padded event in half of the cases)
+    let cap_note = if n == 3 { 1 << 16 } else { 2048 };
+    let consumers: Vec<ConsCfg> = (0..n).map(|c| ConsCfg { sync: sync(c), keep: c % 2 == 0, cap_note, cap_cmd: 4096, pace: FAST }).collect();
+    let mut s = vec![];
+    for c in 0..n {
+        s.push(Step::Attach(c));
+        s.push(Step::Settle);
+    }
+    s.push(Step::LaneApply(ev()));
+    s.push(Step::Settle);
+    let burst = |s: &mut Vec<Step>, k: usize, ev: &mut dyn FnMut() -> Ev| {
+        for _ in 0..k {
+            s.push(Step::LaneApplyPadded(ev(), PAD));
+        }
+    };
+    match var {
+        0 => {
+            s.push(Step::DropReader(victim));
+            s.push(Step::Settle);
+            burst(&mut s, 5, &mut ev);
+            s.push(Step::Settle);
+        }
+        1 => {
+            burst(&mut s, 2, &mut ev);
+            s.push(Step::DropReader(victim));
+            burst(&mut s, 4, &mut ev);
+            s.push(Step::Settle);
+        }
+        2 => {
+            s.push(Step::DropBoth(victim));
+            burst(&mut s, 5, &mut ev);
+            s.push(Step::Settle);
+            let second = (victim + 1) % n;
+            s.push(Step::DropReader(second));
+            burst(&mut s, 6, &mut ev);
+            s.push(Step::Settle);
+        }
+        _ => {
+            // the read task waits for a consumer that does not read; behind it in the socket the
+            // burst grows; the victim leaves; the slow consumer reads again
+            let slow = (victim + 1) % n;
+            s.push(Step::Stall(slow));
+            burst(&mut s, 3, &mut ev);
+            s.push(Step::Settle);
+            s.push(Step::DropReader(victim));
+            burst(&mut s, 5, &mut ev);
+            s.push(Step::Settle);
+            s.push(Step::Unstall(slow));
+            s.push(Step::Settle);
+        }
+    }
+    s.push(Step::LaneApply(ev()));
+    s.push(Step::LaneApply(ev()));
+    s.push(Step::Settle);
+    let cfg = Config {
+        kind,
+        consumers,
+        cap_sock_out: 4096,
+        cap_sock_in: 1 << 16,
+        lane_pace: FAST,
+        att_queue: 8,
+        jitter: 0,
+        init,
+        end: if var % 2 == 0 { EndKind::LaneUnlinked } else { EndKind::Nothing },
+        clearer: None,
+        lane_bulk: false,
+        timeout_ms: LONG_TIMEOUT_MS,
+        faults: false,
+        inactivity: false,
+        strategy: Strategy::Abort,
+        badframes: false,
+        bursts: true,
+    };
+    (cfg, s, FEED_FAILURE_VARIANTS[var])
+}
+
+// ------------------------------------------------------------------------------------------------
+// Directed inactivity scenarios around the code reached by `feed-failure-*` and `badframe-*` (C17):
+// the read task learns that its last consumers have gone *while it feeds them an event* (its lists
+// empty and its timer starts in that very turn); a consumer is found dead that way while others stay;
+// bad frames arrive while nobody is attached. Every conversation ends with the final idle period.
+
+pub const INACTIVITY_EXTRA_SCENARIOS: [&str; 5] = [
+    "everybody-found-gone-while-fed-a-burst",
+    "one-of-three-found-gone-while-fed-the-others-stay-for-two-timeouts",
+    "bad-event-body-ignored-while-nobody-is-attached",
+    "bad-event-body-aborts",
+    "bad-envelope",
+];
+pub const INACTIVITY_EXTRA_CASES: u64 = 2 * 5 * 2 * 5;
+
+pub fn inactivity_extra_case(idx: u64) -> (Config, Vec<Step>, &'static str) {
+    let mut i = idx;
+    let mut take = |n: u64| {
+        let r = i % n;
+        i /= n;
+        r
+    };
+    let kind = if take(2) == 0 { LaneKind::Value } else { LaneKind::Map };
+    let mut scenario = take(5) as usize;
+    let t: u64 = if take(2) == 0 { 20 } else { 60 };
+    let var = take(5);
+    // (the value runtime interprets no bodies)
+    if kind == LaneKind::Value && (scenario == 2 || scenario == 3) {
+        scenario = 4;
+    }
+    let init = match kind {
+        LaneKind::Value => St::V(0),
+        LaneKind::Map => St::M((0..2).map(|j| (lane_key(j), 1000 + j)).collect()),
+    };
+    let mut lane_n = 1u64;
+    let mut ev = || {
+        let e = match kind {
+            LaneKind::Value => Ev::Set(lane_n),
+            LaneKind::Map => Ev::Upd(lane_key(2 + lane_n % 3), lane_n),
+        };
+        lane_n += 1;
+        e
+    };
+    let gap = [t - 2, t - 1, t, t + 1, 2 * t + 1][var as usize];
+    let mut s = vec![];
+    let mut strategy = Strategy::Abort;
+    let session = |s: &mut Vec<Step>, c: usize, ev: &mut dyn FnMut() -> Ev| {
+        s.push(Step::Attach(c));
+        s.push(Step::Settle);
+        s.push(Step::LaneApply(ev()));
+        s.push(Step::Settle);
+    };
+    match scenario {
+        0 => {
+            session(&mut s, 0, &mut ev);
+            session(&mut s, 1, &mut ev);
+            s.push(Step::DropBoth(0));
+            s.push(Step::DropBoth(1));
+            // five events of 3 KB back to back: while the fourth is fed both are found gone
+            for _ in 0..5 {
+                s.push(Step::LaneApplyPadded(ev(), PAD));
+            }
+            s.push(Step::Advance(gap));
+            session(&mut s, 2, &mut ev);
+            s.push(Step::DropBoth(2));
+            s.push(Step::Settle);
+        }
+        1 => {
+            session(&mut s, 0, &mut ev);
+            session(&mut s, 1, &mut ev);
+            session(&mut s, 2, &mut ev);
+            s.push(Step::DropBoth((var % 3) as usize));
+            for _ in 0..5 {
+                s.push(Step::LaneApplyPadded(ev(), PAD));
+            }
+            s.push(Step::Settle);
+            // the two that stay only listen; they must be served for as long as they do
+            s.push(Step::Advance(t + 1));
+            s.push(Step::LaneApply(ev()));
+            s.push(Step::Advance(t + 1));
+            s.push(Step::LaneApply(ev()));
+            s.push(Step::Settle);
+        }
+        2 | 3 => {
+            strategy = if scenario == 3 {
+                [Strategy::Abort, Strategy::ReportAbort, Strategy::BoxedReportAbort][(var % 3) as usize]
+            } else if var % 2 == 0 {
+                Strategy::Ignore
+            } else {
+                Strategy::BoxedReportIgnore
+            };
+            session(&mut s, 0, &mut ev);
+            s.push(Step::DropBoth(0));
+            s.push(Step::Settle);
+            s.push(Step::LaneApply(ev()));
+            s.push(Step::Settle);
+            s.push(Step::LaneApply(ev()));
+            s.push(Step::Settle);
+            // (A left at T0; the write task votes at T0 + t, the read task - told by the second event -
+            // at T0 + 2 + t.) The bad frame arrives at T0 + 2 + gap and B at T0 + 4 + gap: while both
+            // timers run (three gaps), between the two votes, after the stop.
+            s.push(Step::Advance([t / 3, t / 2, t - 6, t - 3, t + 1][var as usize]));
+            s.push(Step::LaneBadEvent(BAD_MAP_BODIES[(idx % 12) as usize].to_vec()));
+            s.push(Step::Settle);
+            s.push(Step::LaneApply(ev()));
+            s.push(Step::Settle);
+            session(&mut s, 1, &mut ev);
+            s.push(Step::DropBoth(1));
+            s.push(Step::Settle);
+        }
+        _ => {
+            session(&mut s, 0, &mut ev);
+            if var % 2 == 0 {
+                s.push(Step::DropBoth(0));
+                s.push(Step::Settle);
+            }
+            s.push(Step::Advance(t / 2));
+            s.push(Step::LaneBadEnvelope([BadEnv::RequestTag, BadEnv::LinkedWithBody, BadEnv::NonUtf8Node, BadEnv::Truncated(500), BadEnv::Truncated(20)][var as usize]));
+            s.push(Step::Settle);
+            s.push(Step::Advance(t / 2));
+            session(&mut s, 1, &mut ev);
+        }
+    }
+    let cons = |o: u64| ConsCfg { sync: o & 1 == 1, keep: o & 2 == 2, cap_note: 1 << 16, cap_cmd: 4096, pace: FAST };
+    let cfg = Config {
+        kind,
+        consumers: vec![cons(var), cons(var + 1), cons(var + 2)],
+        cap_sock_out: 4096,
+        cap_sock_in: 1 << 16,
+        lane_pace: FAST,
+        att_queue: 8,
+        jitter: 0,
+        init,
+        end: EndKind::FinalIdle,
+        clearer: None,
+        lane_bulk: false,
+        timeout_ms: t,
+        faults: true,
+        inactivity: true,
+        strategy,
+        badframes: scenario >= 2,
+        bursts: scenario < 2,
+    };
+    (cfg, s, INACTIVITY_EXTRA_SCENARIOS[scenario])
 }
